@@ -7,7 +7,9 @@ B(base, a) == [base |-> base, a |-> a]
 IntBases(kinds) == [i \in 1..Len(kinds) |-> B("Int", kinds[i])]
 RefBases == <<B("Ref", "E"), B("Ref", "P"), B("Ref", "N"), B("Ref", "M")>>
 \* every base type: bool, the 12 integer kinds, f64, String, the four library declarations
-BasesAll   == <<B("Bool", "")>> \o IntBases(IntKindsAll) \o <<B("F64", ""), B("Str", "")>> \o RefBases
+BasesAll   == <<B("Bool", "")>> \o IntBases(IntKindsAll) \o <<B("F64", ""), B("F32", ""), B("Str", "")>> \o RefBases
+BasesInts  == IntBases(IntKindsAll)
+WrapsInts  == << <<>>, <<"Opt">>, <<"Vec">>, <<"Vec", "Opt">> >>
 BasesQuick == <<B("Bool", ""), B("Int", "u8"), B("Int", "i64"), B("Int", "u128"), B("F64", ""), B("Str", ""), B("Ref", "E"), B("Ref", "N")>>
 BasesMid   == <<B("Bool", ""), B("Int", "u8"), B("Int", "i32"), B("Int", "i64"), B("Int", "u64"), B("Int", "i128"), B("Int", "usize"),
                 B("F64", ""), B("Str", "")>> \o RefBases
@@ -17,7 +19,7 @@ WrapsTiny  == << <<>>, <<"Opt">>, <<"Vec">> >>
 \* renames for the exhaustive runs: two ordinary ones and one that is also a field identifier ("a")
 RensMC     == << "a b", "with \"quotes\"", "a" >>
 NoBases    == <<B("Bool", "")>>
-DocBoth    == BOOLEAN
+DocAll     == {"", "doc", "allow", "after"}
 
 \* ------------------------------------------------------------------------------------------------
 \* Generation.  One line per declaration of the rotating family (all sizes in GenSizes whose first
@@ -28,6 +30,7 @@ CONSTANTS GenSizes,     \* [named_derive |-> {..}, named_map |-> {..}, tuple_der
           NVals         \* values per declaration
 AttrDevs == <<"IntBeyond2p53", "NullTruncatesArray", "DocAttrPanics">>
 SizesNone     == [named_derive |-> {}, named_map |-> {}, tuple_derive |-> {}, enum_derive |-> {}]
+SizesInts     == [named_derive |-> {4}, named_map |-> {4}, tuple_derive |-> {4}, enum_derive |-> {}]
 SizesQuick    == [named_derive |-> {2, 3, 4}, named_map |-> {2, 4}, tuple_derive |-> {1, 3}, enum_derive |-> {1, 3, 4}]
 SizesThorough == [named_derive |-> {1, 2, 3, 4, 6}, named_map |-> {1, 2, 3, 5}, tuple_derive |-> {1, 2, 3, 4, 6}, enum_derive |-> {1, 2, 3, 4, 5, 6}]
 
